@@ -9,6 +9,7 @@ KNOWN_FINDINGS.json).
 -/
 import LimnoriaModel.C16.Lemmas
 import LimnoriaModel.C16.Reload
+import LimnoriaModel.C16.Order
 namespace C16
 open Py
 
@@ -95,7 +96,7 @@ theorem users_load_total (E : Env) (db : UsersDb) (h : storableUsers E (sortedUs
     (loadUsers E none (dumpUsers db)).2 = none ∧ (loadUsers E none (dumpUsers db)).1.cu = none := by
   rw [loadUsers_dumpUsers E db h]; exact ⟨rfl, rfl⟩
 
-def E0 : Env := ⟨C03.glob, asciiLower, 0⟩
+def E0 : Env := ⟨C03.glob, asciiLower, 0, patIntersect⟩
 
 def exampleUsers : UsersDb :=
   { users := [(3, { name := "al".toList }),
